@@ -114,12 +114,13 @@ def verify_csr_decoder_elaborate():
         body = path.fork()
         body.assume(ratio == 1)          # premise, see module docstring
         body.ghost["fanin"] = ()
-        marks["start"] = len(log.entries)
+        start_ = len(log.entries)
+        marks["start"] = start_
         out = []
         for kind, _, q2 in ex_.assign(st_node.target, Tup((sub_map, Opaque("sub_name"), Tup((pat, ratio)))), body, st_node):
             for kind2, val2, q3 in ex_.block(st_node.body, q2):
                 if kind2 in ("fall", "continue"):
-                    marks.setdefault("ends", []).append((q3, len(log.entries)))
+                    marks.setdefault("ends", []).append((q3, len(log.entries), start_))
                 else:
                     out.append((kind2, val2, q3))
         marks["after"] = len(log.entries)
@@ -144,8 +145,8 @@ def verify_csr_decoder_elaborate():
     for k, o in enumerate(outs):
         fv.add("no-exception", f"path{k}", o.path.pc, z3.BoolVal(o.kind == "return"))
     g = lambda o, n: o.init_fields[n].expr
-    for qend, upto in marks.get("ends", []):
-        mine = [e for e in log.entries[marks["start"]:upto] if all(any(f.eq(h) for h in qend.pc) for f in e["path"].pc)]
+    for qend, upto, start_ in marks.get("ends", []):
+        mine = [e for e in log.entries[start_:upto] if all(any(f.eq(h) for h in qend.pc) for f in e["path"].pc)]
         sw = ("Switch", g(bus, "addr"))
         case = ("Case", (Expr("opaque", "sub_pat"),))
         exp = [("address-forwarded-always", g(sub, "addr"), Expr("slice", g(bus, "addr"), z3.IntVal(0), SAW), (sw,)),
@@ -275,12 +276,13 @@ def verify_wb_decoder_elaborate():
             ex_.unsupported(st_node, "another loop")
         body = path.fork()
         body.assume(z3.And(RATIO >= 1, LOG >= 0))
-        marks["start"] = len(log.entries)
+        start_ = len(log.entries)
+        marks["start"] = start_
         out = []
         for kind, _, q2 in ex_.assign(st_node.target, Tup((sub_map, Opaque("sub_name"), Tup((pat, RATIO)))), body, st_node):
             for kind2, val2, q3 in ex_.block(st_node.body, q2):
                 if kind2 in ("fall", "continue"):
-                    marks.setdefault("ends", []).append((q3, len(log.entries)))
+                    marks.setdefault("ends", []).append((q3, len(log.entries), start_))
                 else:
                     out.append((kind2, val2, q3))
         marks["after"] = len(log.entries)
@@ -309,10 +311,10 @@ def verify_wb_decoder_elaborate():
     sw = ("Switch", g(bus, "adr"))
     defaults = {"lock": Expr("const", z3.IntVal(0)), "cti": Expr("opaque", "global:CycleType.CLASSIC"), "bte": Expr("opaque", "global:BurstTypeExt.LINEAR")}
     n_w = 0
-    for qend, upto in marks.get("ends", []):
+    for qend, upto, start_ in marks.get("ends", []):
         n_w += 1
         lab = f"window-path{n_w}"
-        mine = [e for e in log.entries[marks["start"]:upto] if all(any(f.eq(h) for h in qend.pc) for f in e["path"].pc)]
+        mine = [e for e in log.entries[start_:upto] if all(any(f.eq(h) for h in qend.pc) for f in e["path"].pc)]
         exp = [("address-forwarded-shifted-by-log2-ratio", g(sub, "adr"), Expr("op", "LShift", (g(bus, "adr"), Expr("const", LOG))), (sw,)),
                ("write-data-forwarded", g(sub, "dat_w"), g(bus, "dat_w"), (sw,)),
                ("select-replicated", g(sub, "sel"), Expr("cat", "each bus.sel bit replicated sub_ratio times"), (sw,)),
